@@ -633,9 +633,9 @@ impl Element {
                                             // evaluate the expression again inside the updater
                                             let p = expression.to_proc_gen_prepare(w, scopes)?;
                                             w.expr_stmt(|w| {
-                                                write!(w, "R.s(N,")?;
+                                                write!(w, "R.s(N,Y(")?;
                                                 p.value_expr(w)?;
-                                                write!(w, ")")?;
+                                                write!(w, "))")?;
                                                 Ok(())
                                             })
                                         })?;
@@ -651,7 +651,12 @@ impl Element {
                         match slot_kind {
                             SlotKind::None => write!(w, "undefined")?,
                             SlotKind::Static(s) => write!(w, "{}", gen_lit_str(s))?,
-                            SlotKind::Dynamic(p) => p.value_expr(w)?,
+                            SlotKind::Dynamic(p) => {
+                                // (as for virtual nodes: a value that becomes `undefined` selects the default slot)
+                                write!(w, "Y(")?;
+                                p.value_expr(w)?;
+                                write!(w, ")")?;
+                            }
                         }
                         if let Some(var_slot_map) = var_slot_names {
                             if var_slot_map.len() > 0 {
